@@ -177,6 +177,31 @@ Proof.
   - rewrite Hs in E. discriminate.
 Qed.
 
+(* bits switched on behind the length do not show *)
+Lemma set_ons_spec tail : forall pos s, Inv s -> (len s <= pos)%nat ->
+  Inv (set_ons pos tail s) /\ abs (set_ons pos tail s) = abs s /\ len (set_ons pos tail s) = len s.
+Proof.
+  induction tail as [|b t IH]; intros pos s HI Hp; cbn [set_ons]; [auto|].
+  destruct b; [|apply IH; [exact HI|lia]].
+  pose proof (set_bit_spec pos true s HI) as Hs.
+  destruct (pos <? cap s)%nat.
+  - destruct Hs as (s1 & E & HI1 & Hl & _ & _ & Ha). rewrite E. cbn [fst].
+    assert (Hf : (pos <? len s)%nat = false) by (apply Nat.ltb_ge; lia). rewrite Hf in Ha.
+    destruct (IH (S pos) s1 HI1 ltac:(lia)) as (A & B & C). split; [exact A|split; congruence].
+  - rewrite Hs. cbn [fst]. apply IH; [exact HI|lia].
+Qed.
+
+Theorem on_bitstring_roundtrip l tail :
+  print_bitstring_bs (on_bs l tail) = Ok (print_bitstring l).
+Proof.
+  unfold on_bs.
+  destruct (write_bits_ok l (new_bs (length l + length tail)) (Inv_new _)) as (s' & E & Ha & HI & Hl & _).
+  { cbn [len cap new_bs]. lia. }
+  rewrite E. cbn [fst]. rewrite abs_new in Ha. cbn [len new_bs] in Hl.
+  destruct (set_ons_spec tail (length l) s' HI ltac:(lia)) as (A & B & _).
+  rewrite (print_bitstring_bs_spec _ A), B, Ha. reflexivity.
+Qed.
+
 Lemma bitstring_shape l : json_number_or_plain_string (print_bitstring l).
 Proof. right. exists (fift_chars l). split; [apply fift_chars_plain|reflexivity]. Qed.
 
